@@ -16,17 +16,19 @@ import (
 
 // engine static (C17): the real StaticDir / StaticFS / StaticFiles / StaticFile handlers, end to end, on a
 // sandbox tree on disk, against the Lean model of the flow
-//   URL.Path -> route capture -> StripPrefix -> FileServer -> path.Clean -> http.Dir.Open -> file.
+//
+//	URL.Path -> route capture -> StripPrefix -> FileServer -> path.Clean -> http.Dir.Open -> file.
 //
 // ops (byte strings hex encoded, "-" = empty):
-//   tree <files> <dirs>                       paths relative to the sandbox root "www" ("/a.css", "/css/site.css")
-//   mount <kind> <enc> <prefix> <exts> <target>
-//         kind = dir|fs|files|file, enc = 1 for rux.UseEncodedPath, exts = list of alternatives,
-//         target = directory below www that is served ("-" = www itself) resp. the file for kind=file
-//   req <request-target> <URL.Path> <URL.RawPath> <URL.EscapedPath()>
-//         the last three are what net/http's parser made of the request target when the case was
-//         generated; Run parses the raw request line again and checks that they agree
-//   rawbad <request-target>                   a target that net/http refuses to parse (never reaches rux)
+//
+//	tree <files> <dirs>                       paths relative to the sandbox root "www" ("/a.css", "/css/site.css")
+//	mount <kind> <enc> <prefix> <exts> <target>
+//	      kind = dir|fs|files|file, enc = 1 for rux.UseEncodedPath, exts = list of alternatives,
+//	      target = directory below www that is served ("-" = www itself) resp. the file for kind=file
+//	req <request-target> <URL.Path> <URL.RawPath> <URL.EscapedPath()>
+//	      the last three are what net/http's parser made of the request target when the case was
+//	      generated; Run parses the raw request line again and checks that they agree
+//	rawbad <request-target>                   a target that net/http refuses to parse (never reaches rux)
 //
 // answer of req:  "<status class> <what was served>" ;; "<status> <names given to FileSystem.Open (kind fs)>"
 // Location headers, error texts and content types are deliberately not part of the answer.
@@ -39,7 +41,7 @@ func (staticEngine) DriverEngine() string { return "static" }
 
 func (staticEngine) Budget(tier string) int {
 	if tier == "thorough" {
-		return 6000
+		return 15000
 	}
 	return 500
 }
@@ -189,6 +191,7 @@ func (f recFS) Open(name string) (http.File, error) {
 type mountCfg struct {
 	kind   string
 	enc    bool
+	strict bool
 	prefix string
 	exts   []string
 	target string // rel below www ("" = www), for kind=file the rel path of the file
@@ -196,9 +199,9 @@ type mountCfg struct {
 
 // normReqPath: the request path as the router normalises it (C11): white space trimmed, trailing slashes
 // (and white space in front of them) dropped.  Written here independently of the model for the oracle.
-func normReqPath(p string) string {
+func normReqPath(p string, strict bool) string {
 	p = strings.TrimSpace(p)
-	if strings.HasSuffix(p, "/") {
+	if !strict && strings.HasSuffix(p, "/") {
 		p = strings.TrimRightFunc(p, func(c rune) bool { return c == '/' || unicode.IsSpace(c) })
 	}
 	return p
@@ -276,14 +279,20 @@ func (staticEngine) Run(ops []string) (ans []string, oracle []string) {
 				if !ok {
 					return "bad-op"
 				}
-				cfg = mountCfg{kind: f[1], enc: f[2] == "1", prefix: mustUnhx(f[3]), exts: exts, target: mustUnhx(f[5])}
+				flags := atoi(f[2])
+				cfg = mountCfg{kind: f[1], enc: flags&1 != 0, strict: flags&4 != 0, prefix: mustUnhx(f[3]), exts: exts, target: mustUnhx(f[5])}
 				router = nil
-				var r *rux.Router
+				var opts []func(*rux.Router)
 				if cfg.enc {
-					r = rux.New(rux.UseEncodedPath)
-				} else {
-					r = rux.New()
+					opts = append(opts, rux.UseEncodedPath)
 				}
+				if flags&2 != 0 {
+					opts = append(opts, rux.EnableCaching)
+				}
+				if cfg.strict {
+					opts = append(opts, rux.StrictLastSlash)
+				}
+				r := rux.New(opts...)
 				dir := sb.root + cfg.target
 				switch cfg.kind {
 				case "dir":
@@ -355,7 +364,7 @@ func (staticEngine) Run(ops []string) (ans []string, oracle []string) {
 							if !hasAllowedExt(rel, cfg.exts) {
 								oracle = append(oracle, fmt.Sprintf("C17 extensions: StaticFiles(%v) served the file %q for %q", cfg.exts, rel, target))
 							}
-							if !hasAllowedExt(normReqPath(reqPath), cfg.exts) {
+							if !hasAllowedExt(normReqPath(reqPath, cfg.strict), cfg.exts) {
 								oracle = append(oracle, fmt.Sprintf("C17 extensions: StaticFiles(%v) answered 200 for the request path %q", cfg.exts, reqPath))
 							}
 						}
@@ -405,7 +414,15 @@ func treeOp(files, dirs []string) string {
 }
 
 func mountOp(kind string, enc bool, prefix string, exts []string, target string) string {
-	return fmt.Sprintf("mount %s %s %s %s %s", kind, b2s(enc), hx(prefix), hxList(exts), hx(target))
+	fl := 0
+	if enc {
+		fl = 1
+	}
+	return mountOpF(kind, fl, prefix, exts, target)
+}
+
+func mountOpF(kind string, flags int, prefix string, exts []string, target string) string {
+	return fmt.Sprintf("mount %s %d %s %s %s", kind, flags, hx(prefix), hxList(exts), hx(target))
 }
 
 func reqOps(targets ...string) []string {
@@ -458,11 +475,29 @@ func (staticEngine) Corpus() []Case {
 			cases = append(cases, Case{Ops: ops, Tag: "corpus-file"})
 		}
 	}
-	// configurations outside the modelled fragment: implementation oracle only
-	for _, cfg := range [][2]string{{"dir", "/"}, {"dir", "/static/"}, {"fs", "static"}, {"dir", "/a b"}} {
-		ops := []string{tree, mountOp(cfg[0], false, cfg[1], nil, "")}
+	// StrictLastSlash and EnableCaching (every request twice: the second one is answered from the route cache)
+	for _, fl := range []int{2, 4, 7} {
+		for _, cfg := range []struct {
+			kind, prefix string
+			exts         []string
+		}{{"dir", "/static", nil}, {"files", "/assets", []string{"css", "js"}}} {
+			ops := []string{tree, mountOpF(cfg.kind, fl, cfg.prefix, cfg.exts, "")}
+			for _, o := range reqOps(attack(cfg.prefix)...) {
+				ops = append(ops, o, o)
+			}
+			cases = append(cases, Case{Ops: ops, Tag: "corpus-flags"})
+		}
+	}
+	// odd prefixes; the last ones are outside the modelled fragment: implementation oracle only
+	for _, cfg := range [][2]string{{"dir", "/"}, {"dir", "/static/"}, {"fs", "static"}, {"files", "/"}, {"dir", "/a b"}, {"dir", "/x+"}} {
+		var exts []string
+		if cfg[0] == "files" {
+			exts = []string{"css", "html"}
+		}
+		ops := []string{tree, mountOp(cfg[0], false, cfg[1], exts, "")}
 		ops = append(ops, reqOps(attack(strings.TrimSuffix(cfg[1], "/"))...)...)
-		cases = append(cases, Case{Ops: ops, Tag: "corpus-unmodelled"})
+		ops = append(ops, reqOps(attack(cfg[1])...)...)
+		cases = append(cases, Case{Ops: ops, Tag: "corpus-oddprefix"})
 	}
 	return cases
 }
@@ -476,7 +511,8 @@ var (
 		"/a.css.", "/js", "/www", "/www/a.css", "/t.txt", "/sub/t.html", "/.css", "/js/.js"}
 	poolDirs = []string{"/css", "/js", "/sub", "/sub/deep", "/www-private", "/%2e%2e", "/d.css", "/empty", "/.git", "/www", "/sub/index.html", "/css/css", "/ dir"}
 	extSets  = [][]string{{"css", "js"}, {"css"}, {"js", "ejs"}, {"html", "htm"}, {"txt"}, {"css", "js", "html"}, {"JS"}, {"bak"}, {"s"}}
-	prefixes = []string{"/static", "/static", "/assets", "/a/b", "", "/v1.0", "/fs/x/y", "/s-t_u~v", "/css", "/www"}
+	prefixes = []string{"/static", "/static", "/assets", "/a/b", "", "/v1.0", "/fs/x/y", "/s-t_u~v", "/css", "/www",
+		"/", "/static/", "static", "//a", "/a/../b", "/a//b", "/.", "/a/"}
 	// pieces a request path is assembled from
 	attackSegs = []string{"..", "..", "..", ".", "", "", "...", "....", "www", "www-private", "secret.css", "index.html", "%2e%2e", "%2E%2E", "%2e.", ".%2e",
 		"%252e%252e", "..%2f", "..%2F..", "%2e%2e%2f", "..%5c", "..\\", "\\", "%5c", "%00", "a.css%00", "%00.css", "a.css.", "a.css%20", "%20", "a.css%09",
@@ -613,7 +649,27 @@ func genTarget(r *Rand, prefix string, files, dirs []string) string {
 		tail = pctEncodeSome(r, pick(), 1, r.PickInt([]int{3, 8, 1000}))
 	case 2: // existing path with a decoration
 		tail = pctEncodeSome(r, pick(), 0, 1) + r.Pick([]string{"/", "/.", "/./", "/..", "%20", ".", "%00", "/index.html", "//", "%2f", "?a=/../secret.css", "#x", "%0a", "\\", "/%2e%2e/"})
-	case 3, 4, 5, 6: // traversal soup
+	case 6: // an existing path written the long way round: resolves inside the root, must be served
+		p := pick()
+		var out []string
+		for i, n := 0, r.Intn(3); i < n; i++ { // climbing above the root is clamped at the root
+			out = append(out, r.Pick([]string{"..", "%2e%2e", ".%2e", "%2E."}))
+		}
+		for _, sg := range strings.Split(strings.TrimPrefix(p, "/"), "/") {
+			switch r.Intn(6) {
+			case 0:
+				out = append(out, "x", "..")
+			case 1:
+				out = append(out, ".")
+			case 2:
+				out = append(out, "")
+			case 3:
+				out = append(out, "y", "z", "%2e%2e", "..")
+			}
+			out = append(out, pctEncodeSome(r, sg, 1, 6))
+		}
+		tail = "/" + strings.Join(out, "/")
+	case 3, 4, 5: // traversal soup
 		n := r.Range(1, 6)
 		segs := make([]string, n)
 		for i := range segs {
@@ -677,14 +733,28 @@ func (staticEngine) Gen(r *Rand, tier string) Case {
 			}
 		}
 		if tier == "thorough" && r.Chance(1, 25) { // outside the modelled fragment: oracle only
-			prefix = r.Pick([]string{"/", "/static/", "static", "/a b", "/st{a}tic"})
+			prefix = r.Pick([]string{"/a b", "/st{a}tic", "/a[b]", " /x", "/x(y)", "/x+"})
 		}
-		ops = append(ops, mountOp(kind, enc, prefix, exts, target))
+		flags := 0
+		if enc {
+			flags |= 1
+		}
+		if r.Chance(1, 5) {
+			flags |= 2
+		}
+		if r.Chance(1, 5) {
+			flags |= 4
+		}
+		ops = append(ops, mountOpF(kind, flags, prefix, exts, target))
 		tag = kind
 		nr := r.Range(6, 22)
 		for j := 0; j < nr; j++ {
 			if kind == "file" && r.Chance(1, 2) {
 				ops = append(ops, reqOp(prefix+r.Pick([]string{"", "/", "//", "%20", "/..", "/%2e%2e", "/.", "/../secret.css", "?x=..", "%2f..", "/..%5c", "x", "/index.html"})))
+				continue
+			}
+			if j > 0 && r.Chance(1, 8) { // a repeat (answered from the route cache when caching is on)
+				ops = append(ops, ops[len(ops)-1-r.Intn(j)])
 				continue
 			}
 			ops = append(ops, reqOp(genTarget(r, prefix, files, dirs)))
